@@ -132,9 +132,9 @@ type ByteBuf struct {
 
 type TupleV []Value
 type IterV struct {
-	m      *MapV
-	remain []int
-	str    *StrV
+	m    *MapV
+	keys []Value
+	str  *StrV
 }
 
 func copyVal(v Value) Value {
